@@ -238,6 +238,39 @@ def fam : P String := do
       (stepAt ev inv6 acc.1 io.1 io.2, acc.2 ++ bstr ok)) (f0, "x")
   pure (flags ++ " " ++ " ".intercalate (f.map fun s => showState s r))
 
+/-! ### history of one object -/
+def pquad : P (Quad Float) := do
+  let ph ← flts; let th ← flts; let w ← flts; let dA ← flt
+  pure { nodes := (ph.zip (th.zip w)).map fun (p, t, w) => { n := v3Of (nvec_all p t).toArray, w := w }, dA := dA }
+
+def phop (quads : Array (Quad Float)) : P (HOp Float) := do
+  let t ← tok
+  match t with
+  | "S" => do let op ← pop; pure (.setter op)
+  | "Q" => do
+    let k ← nat
+    match quads[k]? with
+    | some q => pure (.setQuad q)
+    | none => failure
+  | "C" => do let r ← pv3; pure (.compute r)
+  | _ => failure
+
+/-- el.hist desc0 nq quad_0 … (quad_0 = nodes of a new ellipsoidal description) nops (S op | Q k | C r(3))…
+    → flags of the setter calls, final description, results of the compute calls in order -/
+def hist : P String := do
+  let d ← pdesc
+  let quads ← lst pquad
+  let qa := quads.toArray
+  let dq : Quad Float := qa.getD 0 { nodes := [], dA := 0.0 }
+  let ops ← lst (phop qa)
+  let flags := ops.foldl (fun (acc : HState Float × String) op =>
+      let f := match op with
+        | .setter o => bstr (step ev inv6 acc.1.st o).2
+        | _ => ""
+      ((hstep ev inv6 inv4 computeSimple dq acc.1 op).1, acc.2 ++ f)) ((hinit d dq : HState Float), "x")
+  let out := hrun ev inv6 inv4 computeSimple dq (hinit d dq) ops
+  pure (s!"{flags.2} {descNat out.1.st.desc} " ++ flist out.2)
+
 def handle (verb : String) : Option (P String) :=
   match verb with
   | "el.gen.moduli" => some genModuli
@@ -254,6 +287,7 @@ def handle (verb : String) : Option (P String) :=
   | "el.energy" => some energy
   | "el.seq" => some seq
   | "el.fam" => some fam
+  | "el.hist" => some hist
   | _ => none
 
 end KawinV.Drv.C16
